@@ -120,7 +120,7 @@ pub fn run(r: &mut Rng, tier: &str, w: &mut dyn Write) -> usize {
         cfgs.push(many_queries(3, 0, FriReductionStrategy::MinSize(None), 18, false, 1));
         cfgs.push(many_queries(3, 3, FriReductionStrategy::ConstantArityBits(3, 1), 20, false, 2));
         cfgs.push(many_queries(4, 2, FriReductionStrategy::Fixed(vec![2, 1, 1]), 14, false, 1));
-        cfgs.push(many_queries(3, 0, FriReductionStrategy::MinSize(Some(2)), 12, true, 2));
+        cfgs.push(many_queries(3, 0, FriReductionStrategy::MinSize(Some(2)), 12, false, 2));
         cfgs.push(many_queries(3, 1, FriReductionStrategy::Fixed(vec![]), 10, false, 1));
     }
     let reps = if tier == "thorough" { 2 } else { 1 };
